@@ -719,3 +719,26 @@ pub fn emit(v: &RV, alt: &Alt, o: &mut Out) {
         }
     }
 }
+
+/// variant code of a term (for "both decoders return the same variant" chains)
+pub fn kind_of(t: &OwnedTerm) -> u8 {
+    match t {
+        OwnedTerm::Integer(_) => 0,
+        OwnedTerm::BigInt(_) => 1,
+        OwnedTerm::Float(_) => 2,
+        OwnedTerm::Atom(_) => 3,
+        OwnedTerm::Binary(_) => 4,
+        OwnedTerm::BitBinary { .. } => 5,
+        OwnedTerm::Nil => 6,
+        OwnedTerm::Pid(_) => 7,
+        OwnedTerm::Port(_) => 8,
+        OwnedTerm::Reference(_) => 9,
+        OwnedTerm::ExternalFun(_) => 10,
+        OwnedTerm::Tuple(_) => 11,
+        OwnedTerm::List(_) => 12,
+        OwnedTerm::ImproperList { .. } => 13,
+        OwnedTerm::String(_) => 14,
+        OwnedTerm::Map(_) => 15,
+        OwnedTerm::InternalFun(_) => 16,
+    }
+}
